@@ -34,14 +34,14 @@ ASSUMPTIONS = ['TLS interception, connection pool, proxy protocol and events are
                'plugin name()s are pairwise distinct (recorded limitation C09-name-collision: equal names collapse)',
                'lifecycle hooks do not raise (otherwise later callbacks and the upstream close are skipped: Example C09_lifecycle_raise_skips)']
 
-REQ_KINDS = ['pass', 'pass', 'pass', 'modify', 'modify', 'del', 'drop', 'reject', 'raise', 'after']
+REQ_KINDS = ['pass', 'pass', 'pass', 'modify', 'modify', 'fresh', 'fresh', 'del', 'drop', 'reject', 'raise', 'after']
 DATA_KINDS = ['pass', 'pass', 'modify', 'drop', 'reject', 'raise', 'after']
 LIFE_KINDS = ['pass', 'pass', 'pass', 'modify', 'drop']
 LIFE_KINDS_BAD = ['pass', 'modify', 'drop', 'raise', 'del']
 
 
 def rand_table(rng, i, calm=False, bad_life=False):
-    rk = ['pass', 'pass', 'modify'] if calm else REQ_KINDS
+    rk = ['pass', 'pass', 'modify', 'fresh'] if calm else REQ_KINDS
     dk = ['pass', 'modify'] if calm else DATA_KINDS
     lk = LIFE_KINDS_BAD if bad_life else LIFE_KINDS
     return P.mk_table(i, buc=P.rand_act(rng, rk), hcr=P.rand_act(rng, rk), hcd=P.rand_act(rng, dk), huc=P.rand_act(rng, dk),
@@ -50,11 +50,20 @@ def rand_table(rng, i, calm=False, bad_life=False):
                       dns=rng.choice([['none'], ['none'], ['none'], ['ip', b'10.1.2.3'], ['src', b'127.0.0.9'], ['raise']]))
 
 
-def history(rng, auth, method=None, calm=False):
+def history(rng, auth, method=None, calm=False, one_per_piece=False):
     code_line = b'Proxy-Authorization: Basic dXNlcjpwYXNz' if auth else None
     spec = P.mk_request(rng, method=method, auth_line=code_line)
     steps = [P.first_step(rng, spec, rng.random() < 0.92)]
+    if rng.random() < 0.3:
+        # further client bytes in the SAME recv segment as the end of the first request
+        if spec['method'] == b'CONNECT':
+            steps.append(['client', b'\x16\x03\x01hello', None, 'same'])
+        else:
+            more = [P.mk_request(rng, method=rng.choice([b'GET', b'HEAD']), auth_line=None) for _ in range(1 if one_per_piece else rng.choice([1, 1, 2]))]
+            steps.append(['client', b''.join(P.wire(x) for x in more), more, 'same'])
     for _ in range(rng.choice([0, 1, 2, 3])):
+        if rng.random() < 0.25:
+            steps.append(['flush', rng.choice([1, 7, 40, 'block', 100000])])
         r = rng.random()
         if spec['method'] == b'CONNECT':
             steps.append(['client', bytes(rng.randrange(256) for _ in range(rng.randrange(1, 9))), None] if r < 0.5
@@ -65,7 +74,7 @@ def history(rng, auth, method=None, calm=False):
                 s2['lines'] += [b'Connection: Upgrade', b'Upgrade: websocket']
                 s2['version'] = b'HTTP/1.1'
             steps.append(['client', P.wire(s2), s2])
-        elif r < 0.55:
+        elif r < 0.55 and not one_per_piece:
             # several requests (and maybe the beginning of another) in ONE piece: on_client_data loops over the remainder
             specs = [P.mk_request(rng, method=rng.choice([b'GET', b'POST', b'HEAD']), auth_line=code_line if rng.random() < 0.3 else None)
                      for _ in range(rng.choice([2, 2, 3]))]
@@ -81,6 +90,14 @@ def history(rng, auth, method=None, calm=False):
                 steps.append(['client', w[cut:], nxt])
             else:
                 steps.append(['client', raw, specs])
+        elif r < 0.65:
+            # one later request delivered in several reads cut at header-line boundaries (plain or upgrade)
+            if rng.random() < 0.4:
+                u = P.upgrade_request(rng, auth_line=code_line)
+                steps.extend(P.later_in_pieces(rng, u, P.upgrade_in_pieces(rng, u)))
+            else:
+                s2 = P.mk_request(rng, method=rng.choice([b'GET', b'POST']), auth_line=code_line)
+                steps.extend(P.later_in_pieces(rng, s2))
         elif r < 0.8:
             steps.append(['upstream', rng.choice([b'HTTP/1.1 200 OK\r\nContent-Length: 2\r\n\r\nok', b'HTTP/1.1 204 No Content\r\n\r\n',
                                                   b'HTTP/1.1 200 OK\r\nContent-Length: 5\r\n\r\nab'])])
@@ -96,7 +113,7 @@ def history(rng, auth, method=None, calm=False):
 
 def gen_runs(rng, quick):
     out = []
-    n = 75 if quick else 2500
+    n = 64 if quick else 2500
     for i in range(n):
         k = rng.choice([1, 2, 2, 3, 3, 4])
         ids = list(range(1, k + 1))
@@ -106,8 +123,13 @@ def gen_runs(rng, quick):
         tables = [dict(rand_table(rng, j, calm=rng.random() < 0.35, bad_life=bad_life), name=names[j - 1]) for j in ids]
         auth = rng.random() < 0.3
         out.append(dict(kind='run', basic_auth=b'user:pass' if auth else None, tables=tables, disable=rng.choice([[], [], [b'x-secret']]),
-                        steps=history(rng, auth, method=[b'GET', b'POST', b'CONNECT', b'GET'][i % 4]),
-                        end=rng.choice(ENDINGS), shutdown_error=rng.choice([None, None, None, 'ENOTCONN', 'EIO'])))
+                        # a handle_client_request hook returning a NEW parser object loses the bytes that followed the request
+                        # in the same piece (they sit in the old object's buffer; recorded quirk, corpus witness): what the
+                        # parser sees afterwards is then no longer what the generator planned, so such lists get one request per piece
+                        steps=history(rng, auth, method=[b'GET', b'POST', b'CONNECT', b'GET'][i % 4],
+                                      one_per_piece=any('fresh' in act_kinds(t['hcr']) for t in tables)),
+                        end=rng.choice(ENDINGS), shutdown_error=rng.choice([None, None, None, 'ENOTCONN', 'EIO']),
+                        max_send=rng.choice([None, None, None, 16, 64])))
     return out
 
 
@@ -138,6 +160,54 @@ def gen_endings(rng, quick):
         if f == 'relayed':
             steps.append(['upstream', b'HTTP/1.1 200 OK\r\nContent-Length: 2\r\n\r\nok' if spec['method'] != b'CONNECT' else b'\x16\x03'])
         out.append(dict(kind='run', basic_auth=b'user:pass' if auth else None, tables=tables, disable=[], steps=steps, end=e, shutdown_error=se))
+    return out
+
+
+def gen_threaded(rng, quick):
+    """threaded mode (the handler owns a selector): shutdown() finds output pending and runs _flush() first; the client
+    socket accepts it / short-writes / raises BrokenPipeError / ConnectionResetError / EIO during that flush.  The
+    lifecycle callbacks must run exactly once in every case (fix faabfc0)."""
+    out = []
+    grid = [(fe, pend) for fe in (None, 'pipe', 'reset', 'oserror') for pend in ('relayed', 'rejected', 'none')]
+    if not quick:
+        grid = grid * 4
+    for fe, pend in grid:
+        names = P.pick_names(rng, 2)
+        acts = dict(hcr=['reject', 403, b'No', b'body']) if pend == 'rejected' else {}
+        tables = [P.mk_table(2, name=names[0], oal=['modify', b'a2']), P.mk_table(1, name=names[1], **acts)]
+        spec = P.mk_request(rng, method=rng.choice([b'GET', b'POST']))
+        steps = [P.first_step(rng, spec, True)]
+        if pend == 'relayed':
+            steps.append(['upstream', b'HTTP/1.1 200 OK\r\nContent-Length: 2\r\n\r\nok'])
+            if rng.random() < 0.5:
+                steps.append(['flush', 5])
+        out.append(dict(kind='run', basic_auth=None, tables=tables, disable=[], steps=steps, threaded=True,
+                        end='pending_shutdown' if pend != 'none' or rng.random() < 0.5 else rng.choice(['client_eof', 'client_reset']),
+                        flush_error=fe, shutdown_error=rng.choice([None, None, 'EIO'])))
+    return out
+
+
+def gen_same_segment(rng, quick):
+    """the first request and a second one in ONE recv segment, the second rejected / dropped / rewritten by
+    handle_client_request (or handle_client_data when before_upstream_connection returned None): exactly the rejecting
+    plugin's response must be sent although the hand-off happens inside the handling of the first request"""
+    out = []
+    second = [['reject', 403, b'No', b'second'], ['reject', 451, None, None], ['reject', None, None, None], ['drop'], ['fresh', None], ['raise', 'ValueError']]
+    for k, act2 in enumerate(second * (1 if quick else 6)):
+        names = P.pick_names(rng, 2)
+        if act2[0] == 'fresh':
+            act2 = ['fresh', P.fresh_spec(rng)]
+        nodrop = rng.random() < 0.75
+        t1 = P.mk_table(1, name=names[0], hcr=['after', 1, ['pass'], act2]) if nodrop else \
+            P.mk_table(1, name=names[0], buc=['drop'], hcd=act2 if act2[0] != 'fresh' else ['modify', b'zz'])
+        tables = [P.mk_table(2, name=names[1]), t1]
+        rng.shuffle(tables)
+        s1 = P.mk_request(rng, method=rng.choice([b'GET', b'POST']))
+        s2 = P.mk_request(rng, method=b'GET')
+        steps = [['first', s1, True, P.segments(rng, P.wire(s1))], ['client', P.wire(s2), s2, 'same']]
+        if rng.random() < 0.5:
+            steps.append(['upstream', b'HTTP/1.1 200 OK\r\nContent-Length: 2\r\n\r\nok'])
+        out.append(dict(kind='run', basic_auth=None, tables=tables, disable=[], steps=steps, end=rng.choice(ENDINGS)))
     return out
 
 
@@ -217,7 +287,7 @@ def gen_order(rng, quick):
 
 def generate(rng, tier):
     quick = tier != 'thorough'
-    return gen_runs(rng, quick) + gen_endings(rng, quick) + gen_permutations(rng, quick) + gen_exhaustive(rng, quick) + gen_nofirst(rng, quick) + gen_order(rng, quick)
+    return gen_runs(rng, quick) + gen_endings(rng, quick) + gen_threaded(rng, quick) + gen_same_segment(rng, quick) + gen_permutations(rng, quick) + gen_exhaustive(rng, quick) + gen_nofirst(rng, quick) + gen_order(rng, quick)
 
 
 # ------------------------------------------------------------------ implementation
@@ -358,6 +428,14 @@ def oracle(case, out):
     ci = [i for i, e in enumerate(log) if e[0] == 'connect']
     if ci and not (buc['idx'][-1] < ci[0] and all(not (e[0] == 'call' and e[2] == 'HCR') for e in log[:ci[0]])):
         return 'upstream connect not between the before_upstream_connection and handle_client_request chains'
+    # the upstream that is dialled is the one named by the request the LAST before_upstream_connection hook returned
+    if ci and buc_last[0] == 'value' and buc_last[1] is not None and all(t['dns'] == ['none'] for t in case['tables']):
+        want = (buc_last[1]['host'], buc_last[1]['port'])
+        if (log[ci[0]][1], log[ci[0]][2]) != want:
+            return 'connected to %r but the before_upstream_connection chain returned a request for %r' % ((log[ci[0]][1], log[ci[0]][2]), want)
+    # a teardown decision of the handler is carried out: once the pending output is flushed the proxy closes the connection
+    if any(e[0] == 'teardown' for e in log) and case.get('end') != 'pending_shutdown' and not out.get('closed_by_handler'):
+        return 'handle_data asked for teardown but the connection was still open after all output had been flushed'
     # ---- 4. rejection: exactly the chosen response, teardown, no upstream contact (BUC) / nothing forwarded
     for g in groups:
         last = g['idx'][-1]
